@@ -29,7 +29,7 @@ def run_property(prop, tier, seed, make_cases, bounds, assumptions, confirm=None
     profiles = profiles or (('dev',) if tier == 'quick' else ('dev', 'rel'))
     run.prepare(profiles)
     for p in profiles: PROGS[p] = run.prog(p)
-    BUDGET.update(budgets(tier))
+    BUDGET.update(budgets(tier)); BUDGET['seed'] = seed
     cases = []
     for p in profiles:
         for c in make_cases(tier, p):
@@ -55,6 +55,7 @@ def run_property(prop, tier, seed, make_cases, bounds, assumptions, confirm=None
     res = run_cases(_case, cases)
     cands = []
     percase = []
+    witnesses = []
     for idx, out, errtxt in res:
         if errtxt:
             run.inconclusive.append(f'case {cases[idx].get("name", cases[idx].get("line"))} crashed: {errtxt[-700:]}')
@@ -63,6 +64,7 @@ def run_property(prop, tier, seed, make_cases, bounds, assumptions, confirm=None
         run.nontrivial += out['nontrivial']
         for s in out['samples']: run.sample(s)
         cands.extend(out['findings'])
+        witnesses.extend(out.get('witnesses', []))
         percase.append((out['case'], out['stats'].paths, round(out['stats'].wall, 1)))
     run.extra['cases_run'] = [dict(case=c, paths=p, wall_s=w) for c, p, w in sorted(percase, key=lambda x: -x[2])[:40]]
     # dedupe by role; keep the smallest witness (fewest true world bits)
@@ -77,12 +79,48 @@ def run_property(prop, tier, seed, make_cases, bounds, assumptions, confirm=None
         from mirsym import ircreplay
         confirm = ircreplay.confirm_findings
     confirm(run, cands)
+    validate_encoder(run, witnesses, int(os.environ.get('VERIF_VALIDATE', '4' if tier == 'quick' else '24')), seed)
     run.assumptions = list(assumptions) + [
         'pre-states are all models of the representation invariant Inv (DESIGN.md §4.2) over the stated universe; reachability of a counterexample state is established by native replay of a history that builds it',
         'select! start index pinned (all other branches of the connection loop are pending in these harnesses)',
         'HashMap iteration order = slot order (oracles compare multisets)',
         'logging disabled (tracing level check returns false)']
     run.finish()
+
+def validate_encoder(run, witnesses, n, seed):
+    """differential validation (DESIGN.md 6.1): passing paths, concretised by the solver, are run against the real server binary through
+    the protocol; the native transcript (replies, deliveries, follow-up probes) must equal the interpreter's prediction."""
+    import random
+    from mirsym import ircreplay
+    if not witnesses or n <= 0: return
+    rng = random.Random(seed * 7919 + 13)
+    ws = list(witnesses); rng.shuffle(ws)
+    done = tried = 0; mism = []; retried = [0]
+    for w in ws:
+        if done >= n or tried >= 3 * n: break
+        case = run.cases_by_name.get(w.get('case'))
+        if case is None: continue
+        tried += 1
+        prof = w.get('profile', 'dev')
+        before = run.native_replays
+        for attempt in range(3):
+            # a disagreement of model and code is deterministic; a socket-timing artefact of the replay is not: only a repeated mismatch counts
+            try:
+                okk, text = ircreplay.replay_witness(run, run.prog(prof), case, w, release=(prof == 'rel'))
+            except Exception as e:
+                okk, text = None, 'replay failed: ' + repr(e)[:300]
+            if okk is not False: break
+            retried[0] += 1
+        if okk is True: done += 1
+        elif okk is False:
+            mism.append(dict(case=w.get('case'), line=w.get('line'), world_true=sorted(k for k, v in w['world'].items() if v is True)[:30], diff=text[:1200]))
+            os.makedirs('/verif/out/replays', exist_ok=True)
+            json.dump(dict(replay=dict(kind='socket', case=case, witness=w, profile=prof), note='passing path whose native transcript differed from the prediction'),
+                      open(f'/verif/out/replays/{run.prop}-val-{len(mism)}.json', 'w'), indent=1, default=str)
+    run.validation_vectors += done
+    run.extra['encoder_validation'] = dict(passing_paths_replayed=done, replays_repeated_after_a_transient_difference=retried[0], skipped=tried - done - len(mism), mismatches=mism[:5])
+    for m in mism[:3]:
+        run.inconclusive.append('ENCODER-MISMATCH on a passing path (model and real code disagree): ' + json.dumps(m)[:1500])
 
 def _role_of(f):
     w = f['witness']
